@@ -3,7 +3,8 @@
    C11 memory model allows beyond interleavings are not covered (see C17_orderings).
    Property theorems only; each is closed by [exact] of a lemma proved in proofs/. *)
 From SQ Require Import lib.Base gen.Gen_C17.
-From SQ Require model.Spsc proofs.SpscClose proofs.SpscData proofs.SpscProofs proofs.SpscWake.
+From SQ Require model.Spsc proofs.SpscClose proofs.SpscData proofs.SpscProofs proofs.SpscWake proofs.SpscWakeInv proofs.SpscWakeThm proofs.SpscFix.
+From SQ Require model.CursorRing model.Worker proofs.CursorProofs proofs.WorkerProofs.
 Import Spsc.
 Local Open Scope N_scope.
 
@@ -31,37 +32,49 @@ Theorem C17_orderings :
   Gen_C17.cursor_acq_consumer_load_ordering = 1 /\ Gen_C17.cursor_rel_consumer_add_ordering = 2 /\
   Gen_C17.worker_remaining_swap_ordering = 1 /\ Gen_C17.worker_senders_load_ordering = 1 /\
   Gen_C17.worker_submit_add_ordering = 2 /\ Gen_C17.worker_drop_sub_ordering = 2 /\
-  Gen_C17.minimum_capacity = 2.
+  Gen_C17.minimum_capacity = 2 /\
+  (* the close protocol the model's theorems are proved for: the result of open.swap decides who frees *)
+  Gen_C17.close_last_out_frees = 0.
 Proof. repeat split; reflexivity. Qed.
 
 (* Every schedule (list of thread choices), every producer / consumer program, every internal
-   capacity >= 2: the received sequence is a prefix of the pushed sequence, and a receiver that has
-   been told Err(ClosedError) (sender closed, queue drained) has received exactly what was pushed. *)
+   capacity >= 2, for the step order the source has (Spsc.code_fixed is generated from it): the
+   received sequence is a prefix of the pushed sequence, and a receiver that has been told
+   Err(ClosedError) (sender closed, queue drained) has received exactly what was pushed. *)
 Theorem C17_spsc_fifo_exactly_once : forall cap sched pp cp, 2 <= cap ->
-  let s := y_st (exec cap sched pp cp) in
+  let s := y_st (exec code_fixed cap sched pp cp) in
   SpscProofs.prefix_of (received s) (pushed s) /\
   (cpc s = Idle -> ccode s = 4 -> received s = pushed s).
-Proof. exact SpscProofs.fifo_exactly_once. Qed.
+Proof. exact SpscWakeThm.fifo_exactly_once_code. Qed.
 
 (* No slot is ever read unwritten (pop and drop_contents); a slot about to be read lies in the
    published window [head, tail) and holds the value written before the tail was published. *)
 Theorem C17_spsc_no_unwritten_slot : forall cap sched pp cp, 2 <= cap ->
-  let s := y_st (exec cap sched pp cp) in
+  let s := y_st (exec code_fixed cap sched pp cp) in
   bad s = false /\
   (cpc s = Work ->
      hpub s <= SpscData.nr s /\ SpscData.nr s < ctc s /\ ctc s <= npub s /\ npub s <= SpscData.nw s /\
      head s = hpub s mod cap /\ tail s = npub s mod cap /\ ch s = SpscData.nr s mod cap /\
      nth (N.to_nat (ch s)) (slots s) None = Some (nth (N.to_nat (SpscData.nr s)) (pushed s) 0)).
-Proof. exact SpscProofs.no_unwritten_slot. Qed.
+Proof. exact SpscWakeThm.no_unwritten_slot_code. Qed.
 
-(* NOT PROVED in general: "in every reachable state a parked receiver with the queue non-empty or
-   closed has a pending wake; symmetric for the sender" (SpscWake.no_lost_wakeup_at is that statement as
-   a predicate on states; the inductive invariant over the AtomicWaker protocol for all schedules is
-   missing).  What is proved is the bounded version: for internal capacity 2, EVERY interleaving of
-   (drop sender || receiver poll) on an empty and on a non-empty queue and of (sender poll on a full
-   queue || drop receiver): in every intermediate state the predicate holds, a pending wake is
-   delivered by the waking thread's next four steps, and no unwritten slot is read. *)
-Theorem C17_spsc_no_lost_wakeup_partial :
+(* No lost wake-up, every schedule, capacity and program (inductive invariant over the AtomicWaker
+   protocol, proofs/SpscWakeInv.v): in every reachable state,
+     - a parked receiver (its last poll returned Pending, it has not started anything since and its
+       waker has not been invoked) that faces a published tail different from its head, or a closed
+       channel, has a producer inside a wake() on its waker that is going to invoke it
+       (SpscWake.wake_pending_r: about to fetch_or on an armed waker, or holding the taken waker);
+     - symmetrically a parked sender facing room behind the shared head, or a closed channel.
+   The argument is the classic one: the poller re-checks after registering, the notifier publishes
+   before waking, and under sequential consistency one of them observes the other. *)
+Theorem C17_spsc_no_lost_wakeup : forall cap sched pp cp, 2 <= cap ->
+  SpscWake.no_lost_wakeup_at cap (y_st (exec code_fixed cap sched pp cp)) = true.
+Proof. exact SpscWakeThm.no_lost_wakeup_code. Qed.
+
+(* the bounded exploration of phase 1, kept as an example: every interleaving of three close/drop
+   scenarios at internal capacity 2, every intermediate state, including delivery of the pending wake
+   within the waking thread's next four steps *)
+Example C17_spsc_wakeup_scenarios :
   SpscWake.scenario 2 [] [] [ODropS] [ORPoll 1] = true /\
   SpscWake.scenario 2 [OPush [1]] [] [ODropS] [ORPoll 1] = true /\
   SpscWake.scenario 2 [OPush [1]] [] [OSPoll [2]] [ODropR] = true.
@@ -70,16 +83,70 @@ Proof.
 Qed.
 
 (* FINDING (memory safety of concurrent drop, not one of the three clauses above): "no access to the
-   channel header after it was deallocated" is FALSE of the model -- and of the code: after its swap
-   the first closer still calls peer.wake() on the header, which the second closer may have freed. *)
+   channel header after it was deallocated" is FALSE of the model of the current code -- and of the
+   code: after its swap the first closer still calls peer.wake() on the header, which the second
+   closer may have freed. *)
 Theorem C17_spsc_close_no_use_after_free_refuted :
-  exists sched pp cp, uaf (y_st (exec 2 sched pp cp)) = true.
+  exists sched pp cp, uaf (y_st (exec false 2 sched pp cp)) = true.
 Proof.
   exists SpscWake.uaf_schedule, [ODropS], [ODropR]. exact (proj1 SpscWake.close_use_after_free).
 Qed.
 
+(* ... and TRUE, for every schedule, capacity and program, of the candidate repair (model parameter
+   fx = true: `released.swap(true)` after the last wake, the last side out frees). *)
+Theorem C17_spsc_close_no_use_after_free : forall cap sched pp cp,
+  uaf (y_st (exec true cap sched pp cp)) = false.
+Proof. exact SpscFix.fixed_no_use_after_free. Qed.
+
+(* ---------------------------------------------------------------------------------------- *)
+(* sync/cursor.rs                                                                            *)
+(* ---------------------------------------------------------------------------------------- *)
+(* Every sequence of cursor operations -- which is every SC interleaving of a producer and a consumer
+   thread, since each operation contains at most one shared access -- for every ring size up to 2^31,
+   u32 index wrap-around included: the consumer's acquired window lies inside the written-and-unread
+   entries, and the producer's acquired window never reaches an unread entry. *)
+Theorem C17_cursor_safe : forall size, 0 < size -> size <= 2147483648 -> forall ops,
+  let s := fold_left (CursorProofs.cstep1 size) ops (CursorRing.cinit size) in
+  CursorRing.c_len s <= CursorRing.tw s - CursorRing.tr s /\
+  CursorRing.p_len s + (CursorRing.tw s - CursorRing.tr s) <= size /\
+  CursorRing.tr s <= CursorRing.tw s /\ CursorRing.tw s - CursorRing.tr s <= size.
+Proof. exact CursorProofs.cursor_safe. Qed.
+
+(* ... and after any history a consume operation returns exactly the next sequence numbers in order
+   (entries are read once each, in the order written), for every power-of-two ring size up to 2^31 *)
+Theorem C17_cursor_fifo : forall k2, k2 <= 31 -> forall ops k,
+  let size := 2 ^ k2 in
+  let s := fold_left (CursorProofs.cstep1 size) ops (CursorRing.cinit size) in
+  snd (CursorRing.consume size k s)
+  = CursorProofs.cseq (CursorRing.tr s + 1) (N.to_nat (N.min k (CursorRing.c_len s))).
+Proof. exact CursorProofs.cursor_fifo. Qed.
+
+(* ---------------------------------------------------------------------------------------- *)
+(* sync/worker.rs (one Sender handle)                                                        *)
+(* ---------------------------------------------------------------------------------------- *)
+(* Every schedule, every sender program (submits, then possibly drop), any number of polls: a parked
+   receiver (last poll_acquire returned Pending, waker not invoked since) with submitted work waiting
+   or with the sender gone has a sender inside a wake() that is going to invoke its waker. *)
+Theorem C17_worker_no_lost_wakeup : forall sched sp rp,
+  let s := Worker.z_st (Worker.wexec sched sp rp) in
+  implb (WorkerProofs.wparked s && ((0 <? Worker.remaining s) || (Worker.senders s =? 0)))
+        (WorkerProofs.wk_pending s) = true.
+Proof. exact WorkerProofs.worker_no_lost_wakeup. Qed.
+
+(* ... and credits are conserved: everything submitted is waiting, held by the receiver, or finished *)
+Theorem C17_worker_conservation : forall sched sp rp,
+  let s := Worker.z_st (Worker.wexec sched sp rp) in
+  Worker.submitted s < Worker.two64 ->
+  Worker.remaining s + Worker.credits s + Worker.finished s = Worker.submitted s.
+Proof. exact WorkerProofs.worker_conservation. Qed.
+
 Print Assumptions C17_orderings.
 Print Assumptions C17_spsc_fifo_exactly_once.
 Print Assumptions C17_spsc_no_unwritten_slot.
-Print Assumptions C17_spsc_no_lost_wakeup_partial.
+Print Assumptions C17_spsc_no_lost_wakeup.
 Print Assumptions C17_spsc_close_no_use_after_free_refuted.
+Print Assumptions C17_spsc_close_no_use_after_free.
+Print Assumptions C17_cursor_safe.
+Print Assumptions C17_worker_no_lost_wakeup.
+Print Assumptions C17_worker_conservation.
+Print Assumptions C17_cursor_fifo.
